@@ -55,7 +55,9 @@ def attrs(t):
     if k == "Flag":
         return A("fixed", 1, kind="bool")
     if k == "BitsInteger":
-        return A("fixed", t[1], kind="int", level="bit")
+        if is_const(t[1]):
+            return A("fixed", t[1], kind="int", level="bit")
+        return A("self", kind="int", level="bit", ctxfree=False)
     if k == "GreedyString":
         return A("greedy", nullable=True, kind="str")
     if k == "CString":
